@@ -28,7 +28,7 @@ CONFIG = dict(
     min_nontrivial={"quick": 30, "thorough": 500},
     nshards={"quick": 4, "thorough": 8},
     timeout={"quick": 900, "thorough": 5400},
-    required_counters=("views_read_before_injection", "reserved_name_cases", "refused_first_attempts", "non_default_protocol_cases", "injections", "members_compared", "loads_compared"),
+    required_counters=("earlier_wrappers_kept_alive", "views_read_before_injection", "reserved_name_cases", "refused_first_attempts", "non_default_protocol_cases", "injections", "members_compared", "loads_compared"),
 )
 
 
@@ -51,7 +51,7 @@ REFUSED_PAYLOADS = [["vp_refused = 1", None], None, ("vp_refused = 2", object())
                     {"vp_refused = 4": {5}}, b"\xff\xfe" * 3 + b"\x00" if False else ["vp_refused = 5", b"\xff", {"k": None}]]
 
 
-def run_case(ctx, mods, label, obj, text, overwrite, raw=False, proto=None, refused_first=None, touch_first=None, fname=None):
+def run_case(ctx, mods, label, obj, text, overwrite, raw=False, proto=None, refused_first=None, touch_first=None, fname=None, earlier=False):
     torch, f, PyTorchModelWrapper = mods
     import vp_sink
     agg = ctx.agg
@@ -69,7 +69,7 @@ def run_case(ctx, mods, label, obj, text, overwrite, raw=False, proto=None, refu
     with open(src, "rb") as fh:
         src_bytes = fh.read()
     payload = text if raw else f"__import__('vp_sink').hit('C16', {text!r})"
-    key = h(hashlib.sha256(src_bytes).hexdigest() + "|" + payload + "|" + str(overwrite) + ("|refused%s" % refused_first if refused_first is not None else "") + ("|touch:" + touch_first if touch_first else ""))
+    key = h(hashlib.sha256(src_bytes).hexdigest() + "|" + payload + "|" + str(overwrite) + ("|refused%s" % refused_first if refused_first is not None else "") + ("|touch:" + touch_first if touch_first else "") + ("|earlier" if earlier else ""))
     ntens = len(torchfiles.storage_partition(torch, obj))
     if not agg.case(key, ntens > 0, {"model": label, "payload": payload[:80], "overwrite": overwrite, "tensors": ntens}):
         return
@@ -78,6 +78,28 @@ def run_case(ctx, mods, label, obj, text, overwrite, raw=False, proto=None, refu
         in_names = z.namelist()
         in_members = {n: z.read(n) for n in in_names}
     before = sha(src)
+    alive = []
+    if earlier:
+        # history across wrappers: another wrapper, still referenced by the caller (a list of models being processed),
+        # has rewritten its own file in place through the same output name before; it is released only after this
+        # case's injection (what it does when it goes away is part of what the output has to survive)
+        import shutil
+        src0 = os.path.join(ctx.scratch, "c16_earlier.pt")
+        shutil.copyfile(src, src0)
+        try:
+            with contextlib.redirect_stdout(io.StringIO()), contextlib.redirect_stderr(io.StringIO()):
+                import warnings
+                with warnings.catch_warnings():
+                    warnings.simplefilter("ignore")
+                    w0 = PyTorchModelWrapper(src0)
+                    w0.inject_payload(payload, out, injection="insertion", overwrite=True)
+                    alive.append(w0)
+                    del w0
+            agg.count("earlier_wrappers_kept_alive")
+        except Exception:
+            agg.count("earlier_wrapper_raised")
+        if os.path.exists(out):
+            os.remove(out)
     listing_before = set(os.listdir(ctx.scratch))
     with monitor.Recording() as rec:
         try:
@@ -114,6 +136,14 @@ def run_case(ctx, mods, label, obj, text, overwrite, raw=False, proto=None, refu
             agg.violation(f"injection-raises:{type(e).__name__}", f"inject_payload raised on a torch.save zip file: {str(e)[:150]}", w)
             return
     agg.count("injections")
+    if earlier:
+        import gc
+        del alive[:]
+        gc.collect()
+        s0 = os.path.join(ctx.scratch, "c16_earlier.pt")
+        if os.path.exists(s0):
+            os.remove(s0)
+        listing_before.discard("c16_earlier.pt")
     writes = []
     for name, s in rec.events:
         if name == "open" and isinstance(s[0], str) and os.path.abspath(s[0]) == os.path.abspath(src):
@@ -239,6 +269,11 @@ def run_shard(ctx):
             i += 1
             if i % ctx.nshards == ctx.shard:
                 run_case(ctx, mods, label + "+refused-first", obj, texts[i % len(texts)], bool(i % 2), refused_first=ri)
+    # histories across wrappers: an earlier wrapper (kept referenced) rewrote its own file through the same output name
+    for label, obj in list(torchfiles.models(torch, asm.rng_for(ctx.seed, "c16earlier"), 0))[:8]:
+        i += 1
+        if i % ctx.nshards == ctx.shard:
+            run_case(ctx, mods, label + "+earlier-wrapper", obj, texts[i % len(texts)], False, earlier=True)
     # file names whose stem is one of the member names the format reserves (the archive's root directory gets that name)
     for label, obj in list(torchfiles.models(torch, asm.rng_for(ctx.seed, "c16names"), 0))[:6]:
         for fname in ("data.pkl.pt", "data.pkl.zip", "version.pt", "constants.pkl.pt", "byteorder.pt", "data.pt", ".data.pkl.pt",
@@ -283,10 +318,11 @@ def replay(ctx, payload):
     torch = mods[0]
     torch.manual_seed(ctx.seed)
     rng = asm.rng_for(ctx.seed, "c16")
+    earlier = c.get("model", "").endswith("+earlier-wrapper")
     for label, obj in torchfiles.models(torch, rng, 120):
-        if label == c.get("model"):
+        if label + ("+earlier-wrapper" if earlier else "") == c.get("model"):
             for text in payload_texts(ctx) + [s for s in gen.STRS if s not in ("\ud800", "\x00")]:
                 if f"__import__('vp_sink').hit('C16', {text!r})"[:200] == c.get("payload"):
-                    run_case(ctx, mods, label, obj, text, bool(c.get("overwrite")))
+                    run_case(ctx, mods, c.get("model"), obj, text, bool(c.get("overwrite")), earlier=earlier)
                     return
     ctx.agg.inconclusive.append("could not regenerate the witness model/payload from its label")
